@@ -400,6 +400,16 @@ func build(c *vlib.Ctx, shape string) *scen {
 				signV1(sim, t, map[int]types.PrivateKey{0: k.SK("B")})
 				return true
 			}
+			// ... to an address that is already in effect as one of the two: the other one changes
+			for name, to := range map[string]string{"fnd-unauthorised-primary": "F", "fnd-unauthorised-mgmt": "M"} {
+				to := to
+				s.tamper[name] = func() bool {
+					s.tamper["fnd-unauthorised"]()
+					t.ArbitraryData[0] = upd(k.Addr(to))
+					signV1(sim, t, map[int]types.PrivateKey{0: k.SK("B")})
+					return true
+				}
+			}
 		} else {
 			e := gen(sim, 11) // owned by the management (failsafe) address
 			a := k.Addr("A")
@@ -427,6 +437,14 @@ func build(c *vlib.Ctx, shape string) *scen {
 				t.SiacoinInputs[0] = types.V2SiacoinInput{Parent: o, SatisfiedPolicy: types.SatisfiedPolicy{Policy: k.Policy("B")}}
 				t.SiacoinInputs[0].SatisfiedPolicy.Signatures = []types.Signature{k.SK("B").SignHash(sim.CS.InputSigHash(*t))}
 				return true
+			}
+			for name, to := range map[string]string{"fnd-unauthorised-primary": "F", "fnd-unauthorised-mgmt": "M"} {
+				to := to
+				s.tamper[name] = func() bool {
+					x := k.Addr(to)
+					t.NewFoundationAddress = &x
+					return s.tamper["fnd-unauthorised"]()
+				}
 			}
 		}
 	case "v2pk":
